@@ -50,6 +50,8 @@ class TunnelClient(Client):
                 pass
         super().close()
 
+    disconnect_all = close          # (the base class spells the alias as a class attribute: an override has to repeat it)
+
 
 class FoldingClient(Client):
     """folds str keys to lower case in every public command that takes keys (an application-level key convention)"""
